@@ -139,6 +139,11 @@ func (q *MultiOpQueryer) queryBatch(inputs []*requests.Request) ([]map[string]in
 			return nil, resp.Errors
 		}
 
+		// neither data nor errors is not a graphql response
+		if resp.Data == nil {
+			return nil, fmt.Errorf("response from %s carries neither data nor errors", q.url)
+		}
+
 		results[i] = resp.Data
 	}
 
@@ -162,6 +167,12 @@ func (q *MultiOpQueryer) queryBatch(inputs []*requests.Request) ([]map[string]in
 		if len(resp.Errors) != 0 {
 			return nil, resp.Errors
 		}
+
+		// neither data nor errors is not a graphql response
+		if resp.Data == nil {
+			return nil, fmt.Errorf("response from %s carries neither data nor errors", q.url)
+		}
+
 		results[toFetchIndexes[i]] = resp.Data
 	}
 
